@@ -43,6 +43,7 @@ def configs(tier):
         out.append(('complete-n2-P%d' % P, {'kind': 'complete', 'nens': 2, 'P': P, 'mode': 'single', 'N': 4}))
     for k in (1, 2):
         out.append(('zero-noise-N6-cap%d' % k, {'kind': 'zero', 'N': 6, 'k': k, 'stop': 'fixed1' if q or k == 1 else 'fixed2'}))
+    out.append(('zero-noise-integer-input', {'kind': 'zero', 'N': 8, 'k': 2, 'stop': 'fixed1', 'int_input': True}))
     return out
 
 
@@ -93,12 +94,16 @@ def harness(h):
     kind, N = h.params['kind'], h.params['N']
     X = h.reals('x', N)
     h.set_option('sqrt', 'abstract-pos')
+    if h.params.get('int_input'):
+        # integer-stored recording (ADC counts): a concrete int64 array; only the (zero-scaled) noise is symbolic
+        X = np.array([3, -1, 4, 1, -5, 9, 2, 6][:N], dtype=np.int64)
+        h.set_option('sqrt', 'exact')
     if kind == 'zero':
         imf_opts, env_opts, ext_opts = common.sift_options(h, {'stop': h.params['stop']})
         k = h.params['k']
         try:
             with common.trace_sift(max_gni=200, max_env=2000):
-                ref = np.asarray(S.sift(X, max_imfs=k, imf_opts=imf_opts))
+                ref = np.asarray(S.sift(X.astype(float) if h.params.get('int_input') else X, max_imfs=k, imf_opts=imf_opts))
                 ens = np.asarray(S.ensemble_sift(X, nensembles=2, ensemble_noise=0, max_imfs=k, imf_opts=imf_opts))
         except EMDSiftCovergeError:
             return
